@@ -57,7 +57,10 @@ class Runner:
 
     def run(self, steps, fclass=None):
         """steps: list of (req, fault or None).  Returns list of (outcome, trace, snapshot) and the model requests."""
-        w = F.World(self.ctx.model)
+        from impl import transports as T
+        self.transport = T.pick(steps)
+        self.ctx.count("transport:" + self.transport)
+        w = F.World(self.ctx.model, self.transport)
         try:
             res, mreqs = [], []
             for i, (req, fault) in enumerate(steps):
